@@ -164,6 +164,18 @@ func run(c *harness.Ctx, i int) {
 		fop = "subset"
 		subset = uint64(c.Rng.Int63()) | 1
 	}
+	if sc.op == "chunkstream" && slot == 44 {
+		// no fault at all, but one store call that takes its time (a retried request, a slow answer) while the other
+		// workers carry on, on a stream many times the size of the chunker's read-ahead: what a stalled worker holds
+		// must still be the chunk it was given when it gets to store it
+		fop, subset = "stall", 0
+		fk = 1 + c.Rng.Int63n(6)
+		if sc.n < 2 {
+			sc.n = 2 + c.Rng.Intn(6)
+		}
+		sc.blob = dsu.MakeBlob(c.Rng, "random", int(sc.sz.Max)*(40+c.Rng.Intn(60)), sc.sz)
+		sc.idx = dsu.RefIndex(sc.blob, sc.sz)
+	}
 	ctx, cancel := context.WithCancel(context.Background())
 	defer cancel()
 	var cancelled int64
@@ -198,6 +210,9 @@ func run(c *harness.Ctx, i int) {
 		}
 		if n%5 == 0 {
 			time.Sleep(time.Duration(n%4) * 20 * time.Microsecond)
+		}
+		if fop == "stall" && n == fk && (op == "has" || op == "store") {
+			time.Sleep(25 * time.Millisecond)
 		}
 	}
 	src := dsu.NewMemStore("src")
